@@ -207,7 +207,7 @@ def run_unit(unit_name, repo='/repo', rlimit=None, twins=True, extra_args=(), ta
             if m is None:
                 continue
             tl = _TRAIL_LABEL.search(m.text)
-            if m.kind in ('ensures', 'invariant', 'twin') or (m.kind == 'proof' and m.label):
+            if m.kind in ('ensures', 'invariant', 'twin') or (m.kind == 'proof' and (m.label or tl)):
                 label = label or m.label or (tl.group(1) if tl else None)
                 fn = fn or m.fn
                 gen_line = gen_line or sp['line_start']
